@@ -179,8 +179,14 @@ func runC17(e *env) error {
 		p := &proj.Project{Module: fmt.Sprintf("example.org/r%d", i)}
 		n := 1 + r.Intn(4)
 		twoPkgs := r.Chance(50)
+		// how the goverter comments are spelled: one spelling for the whole project, or one per converter
+		projStyle := rng.Pick(r, []string{"", "", "directive", "tab", "mixed"})
 		for j := 0; j < n; j++ {
 			c := &proj.Conv{Dir: "a", File: fmt.Sprintf("conv%d.go", j%2), Vars: r.Chance(25), Name: fmt.Sprintf("Conv%d", j)}
+			c.Style = projStyle
+			if projStyle == "mixed" {
+				c.Style = rng.Pick(r, []string{"", "directive", "tab"})
+			}
 			if twoPkgs && r.Bool() {
 				c.Dir = "b"
 			}
